@@ -63,6 +63,16 @@ def main():
         meta["confirmed"]["builds"] = rc1 == 0
         t0 = time.time()
         rc2, o2 = sh("go test -vet=off -count=1 -timeout 25m ./...", cwd=wt)
+        for _ in range(2):
+            # the repository's own suite is flaky at the 1% level (known finding C11: honest non-revocation
+            # proofs rejected with probability ~2^-12 per hidden attribute): retry failing packages
+            if rc2 == 0:
+                break
+            failed = [l.split()[1] for l in o2.splitlines() if l.startswith("FAIL\t")]
+            meta.setdefault("suite_retries", []).append(failed)
+            if not failed:
+                break
+            rc2, o2 = sh("go test -vet=off -count=1 -timeout 25m %s" % " ".join(failed), cwd=wt)
         meta["confirmed"]["suite_passes_with_patch"] = rc2 == 0
         meta["suite_s"] = round(time.time() - t0)
         if rc2 != 0:
